@@ -45,14 +45,15 @@ type c13Case struct {
 }
 
 type c13Obs struct {
-	Links     []int // link (by join index) whose tap holds the frame of send k, -1 = not found
-	Orders    []int // byte 6 of that frame
-	PoolLens  []int
-	Delivered []int // global send index in order of the Route* calls at the receiver, -1 = unknown value
-	Lost      int
-	ZFrames   int
-	Log       []string
-	SendErr   []string
+	Links              []int // link (by join index) whose tap holds the frame of send k, -1 = not found
+	Orders             []int // byte 6 of that frame
+	PoolLens           []int
+	Delivered          []int // global send index in order of the Route* calls at the receiver, -1 = unknown value
+	Lost               int
+	ZFrames            int
+	Log                []string
+	SendErr            []string
+	OpenAfterTerminate []int // links A left open when it terminated the connection
 }
 
 // safeSend: a panic inside the connection code is an observation, not a crash of the harness
@@ -269,6 +270,27 @@ func runC13Case(c c13Case) (o c13Obs) {
 				want := p.coreB.count() + heldFrames(p, op.Link)
 				p.links[op.Link].ab.release()
 				waitRelayDrained(p, op.Link, want)
+			}
+		case "terminate":
+			// A terminates the connection: every pooled link that was not lost before must be closed by A
+			// (otherwise the peer never sees the connection go down). Probed from the relay's end of A's pipe.
+			dropped := map[int]bool{}
+			for _, q := range c.Ops {
+				if q.Op == "drop" {
+					dropped[q.Link] = true
+				}
+			}
+			p.connA.Terminate(nil)
+			time.Sleep(3 * time.Millisecond)
+			for i, l := range p.links {
+				if dropped[i] {
+					continue
+				}
+				l.a2.SetWriteDeadline(time.Now().Add(60 * time.Millisecond))
+				_, err := l.a2.Write([]byte{0})
+				if err == nil || !strings.Contains(err.Error(), "closed pipe") {
+					o.OpenAfterTerminate = append(o.OpenAfterTerminate, i)
+				}
 			}
 		case "quiesce":
 			// everything sent so far has left the sender, crossed the relays and been handled
